@@ -370,6 +370,7 @@ func tmParseAST(ctx context.Context, in string, rec *recorder) (string, error) {
 var tmCorpus = &corpus{
 	deep: []deepShape{
 		{head: "zzdeep: ", open: "(", sep: " /* c */ ", core: "a", close: ")", tail: " ;"},
+		{head: "zzrun: a ;\n", open: "", sep: "# c\n", core: "zzrun2: b ;", close: "", tail: ""}, // a long run of reported, never shifted tokens
 	},
 	prologue: "language g(go);\n\nlang = \"g\"\npackage = \"a/b\"\neventBased = true\n\n:: lexer\n\nid: /[a-z]+/\nnum {int}: /[0-9]+/\n'+': /\\+/\n'(': /\\(/\n')': /\\)/\nws: /[ \\t]+/ (space)\n\n:: parser\n\n%input file;\n\n",
 	sep:      "\n",
@@ -499,6 +500,7 @@ var jsCorpus = &corpus{
 		{open: "-", sep: " /*c*/ ", core: "1", close: "", tail: ";"},
 		{head: "x = `a", open: "${b}c", sep: "", core: "", close: "", tail: "`;"},
 		{head: "x = a", open: " + b", sep: " /*c*/", core: "", close: "", tail: ";"},
+		{head: "x;\n", open: "", sep: "// c\n", core: "y;", close: "", tail: ""},
 	},
 	sep: "\n",
 	items: []string{
@@ -648,6 +650,8 @@ var testCorpus = &corpus{
 	deep: []deepShape{
 		{open: "{", sep: " /* c */ ", core: "decl2", close: "}"},
 		{open: "if(as)", sep: " /* c */ ", core: "decl2", close: ""},
+		{head: "decl2\n", open: "", sep: "/* c */\n", core: "decl2", close: ""},
+		{head: "decl2\n", open: "", sep: "// c\n", core: "decl2", close: ""},
 	},
 	sep: "\n",
 	items: []string{
